@@ -66,7 +66,7 @@ theorem repop_phase_needs_recipients_below_K :
         ¬ ValidLabelling inp s'.labels := by
   refine ⟨⟨4, 1, 2, 1, fun _ _ => 0, [], 0, 0⟩,
     ⟨fun _ _ _ _ => 0, fun _ _ => 0, fun _ _ => 0, fun _ => [5], fun _ _ _ => [0]⟩,
-    ⟨[0, 0, 0, 0], 0, 0, []⟩, ⟨[5, 0, 0, 0], 0, 0, []⟩, ?_, ?_, ?_⟩
+    ⟨[0, 0, 0, 0], 0, 0, [], []⟩, ⟨[5, 0, 0, 0], 0, 0, [], []⟩, ?_, ?_, ?_⟩
   · exact ⟨rfl, by decide⟩
   · have : Repop.repopulate 2 1 (fun _ : Nat => (0 : Rat)) (fun _ _ => [0]) [5] [0, 0, 0, 0]
         = some [5, 0, 0, 0] := by
@@ -88,9 +88,9 @@ theorem run_round_counter (inp : Input α) (orc : Oracles α) (limit : Nat) (ini
 omit [LinearOrder α] [IsStrictOrderedRing α] in
 /-- ADDED: the stored mean table is the pointwise definition — inside the table's bounds, entry
 `(k, j)` of `meanTable` is the mean of column `j` over exactly the members of cluster `k`. -/
-theorem meanOf_meanTable (inp : Input α) (labels ls : List Nat) (r : Nat) (c : α) (k j : Nat)
+theorem meanOf_meanTable (inp : Input α) (labels ls fl : List Nat) (r : Nat) (c : α) (k j : Nat)
     (hk : k < inp.K) (hj : j < inp.d) :
-    meanOf (⟨ls, r, c, meanTable inp labels⟩ : St α) k j
+    meanOf (⟨ls, r, c, meanTable inp labels, fl⟩ : St α) k j
       = Numeric.clusterMean inp.data (Repop.members labels k) j := by
   simp [meanOf, meanTable, List.getD_eq_getElem?_getD, hk, hj]
 
